@@ -7,7 +7,17 @@
 //! reported to the harness (which may use it as a scheduling point and feeds a happens-before
 //! model); without hooks the types are plain pass-throughs.
 
-#![allow(dead_code, missing_docs, missing_debug_implementations, unreachable_pub, clippy::all, clippy::pedantic, clippy::restriction, clippy::nursery, reason = "verification-only shim")]
+#![allow(
+    dead_code,
+    missing_docs,
+    missing_debug_implementations,
+    unreachable_pub,
+    clippy::all,
+    clippy::pedantic,
+    clippy::restriction,
+    clippy::nursery,
+    reason = "verification-only shim"
+)]
 
 use std::sync::atomic::{AtomicUsize as StdAtomicUsize, Ordering as StdOrdering};
 
@@ -272,15 +282,19 @@ pub mod atomic {
                 None => self.0.compare_exchange(current, new, success, failure),
                 Some(h) => {
                     let mut ok = false;
-                    let seen = (h.atomic)(self.addr(), AtomicOp::Cas, success, failure, &mut || {
-                        match self.0.compare_exchange(current, new, success, failure) {
+                    let seen = (h.atomic)(
+                        self.addr(),
+                        AtomicOp::Cas,
+                        success,
+                        failure,
+                        &mut || match self.0.compare_exchange(current, new, success, failure) {
                             Ok(old) => {
                                 ok = true;
                                 (u64::from(old), Some(u64::from(new)))
                             }
                             Err(old) => (u64::from(old), None),
-                        }
-                    }) != 0;
+                        },
+                    ) != 0;
                     if ok { Ok(seen) } else { Err(seen) }
                 }
             }
